@@ -82,6 +82,8 @@ func init() {
 		runner.Part{Scenario: "simhost", Params: p("snapshot", "12", "overhead", "2", "psnapreq", "10", "pstop", "4", "compress", "1"), Share: 1},
 		runner.Part{Scenario: "simhost", Params: p("snapshot", "5", "sm", "3", "pcrash", "8", "pmember", "6", "hosts", "4"), Share: 1},
 		runner.Part{Scenario: "simhost", Params: p("snapshot", "5", "sm", "3", "smyield", "600", "pcrash", "15", "pmember", "15", "psnapreq", "20", "ptransfer", "10", "hosts", "3", "syncinterval", "20"), Share: 2},
+		// on-disk replicas that restart with their state ahead of their last snapshot, lead while still replaying, and have lagging followers to stream to
+		runner.Part{Scenario: "simhost", Params: p("sm", "3", "hosts", "3", "snapshot", "25", "overhead", "0", "syncinterval", "10", "smyield", "600", "phold", "300", "holdlen", "200", "pcrash", "12", "prestart", "100", "replaywindow", "60", "ptransfer", "10", "ppartition", "10", "pheal", "5", "psnapreq", "15", "ops", "40", "readmix", "10", "steps", "2500"), Share: 2},
 		runner.Part{Scenario: "l0/rsmtwin", Params: p("focus", "snapshot"), Share: 2},
 		runner.Part{Scenario: "l0/rsmtwin", Params: p("focus", "snapshot", "enum", "1"), Share: 1, MaxRuns: 1200})
 	sh("C20", 90, 1200, runner.Part{Scenario: "simhost/import", Params: p("pmember", "0"), Share: 2},
@@ -106,7 +108,9 @@ func init() {
 		runner.Part{Scenario: "simhost", Params: p("snapshot", "5", "fsyield", "100", "pcrash", "10", "psnapreq", "10", "sm", "3"), Share: 1},
 		runner.Part{Scenario: "simhost", Params: p("snapshot", "12", "fsyield", "300", "pcrash", "8", "torn", "1"), Share: 1},
 		// on-disk state machines that install streamed snapshots (lagging followers) and crash while doing so
-		runner.Part{Scenario: "simhost", Params: p("sm", "3", "hosts", "3", "snapshot", "5", "overhead", "0", "ppartition", "12", "pheal", "10", "pcrash", "12", "prestart", "60", "fsyield", "400", "ops", "40", "readmix", "10"), Share: 2})
+		runner.Part{Scenario: "simhost", Params: p("sm", "3", "hosts", "3", "snapshot", "5", "overhead", "0", "ppartition", "12", "pheal", "10", "pcrash", "12", "prestart", "60", "fsyield", "400", "ops", "40", "readmix", "10"), Share: 2},
+		// snapshot jobs that queue behind another shard's on the only snapshot worker, crashes and shard restarts meanwhile
+		runner.Part{Scenario: "simhost", Params: p("ballast", "1", "snapworkers", "1", "snapshot", "5", "overhead", "0", "psnapreq", "20", "smyield", "300", "fsyield", "200", "pcrash", "10", "pstop", "6", "ppartition", "8", "ops", "40"), Share: 1})
 	sh("C17", 120, 1200, runner.Part{Scenario: "simhost", Share: 2},
 		runner.Part{Scenario: "simhost", Params: p("pmember", "10", "ptransfer", "8", "ppartition", "8"), Share: 1},
 		// few full members plus witnesses / non-voting members, crashes in the middle of saves
